@@ -187,6 +187,7 @@ fn poll_empty<const N: usize>() {
         env::E.enter_errno[0] = errno;
         env::E.enter_publish[0] = m;
     }
+    env::skip_wake_blocked_futures();
     let user_timeout = if kani::any() { Some(Duration::new(kani::any(), 0)) } else { None };
     let res = comps.poll(&shared, user_timeout);
     // --- handshake (C11)
